@@ -19,12 +19,12 @@ Proof.
            by_coord probe_max f32_fin rank32 mid_fin32 rank32_mono).
 Qed.
 
-Lemma bbox32_length : forall D a pts bb, bbox32 D a pts = Some bb -> length bb = D.
+Lemma bbox32_length cl : forall D a pts bb, bbox32 cl D a pts = Some bb -> length bb = D.
 Proof.
   induction D as [|D IH]; intros a pts bb H; cbn [bbox32] in H.
   - inversion H; reflexivity.
   - destruct (column a pts) as [c|]; [|discriminate].
-    destruct (bbox32 D (S a) pts) as [r|] eqn:E; [|discriminate].
+    destruct (bbox32 cl D (S a) pts) as [r|] eqn:E; [|discriminate].
     destruct (bbox_axis f64_max_value f64_min_value c) as [mn mx]. inversion H; subst.
     cbn [length]. f_equal. eapply IH; exact E.
 Qed.
@@ -38,8 +38,8 @@ Proof.
   constructor; [split; assumption|]. eapply IH; exact H4.
 Qed.
 
-Lemma mk_items_len : forall pts ws i it, length pts = length ws -> In it (mk_items i pts ws) ->
-  exists p, In p pts /\ co it = map f64_to_f32 p.
+Lemma mk_items_len cl : forall pts ws i it, length pts = length ws -> In it (mk_items cl i pts ws) ->
+  exists p, In p pts /\ co it = map (cast32 cl) p.
 Proof.
   induction pts as [|p t IH]; intros [|w ws] i it H Hit; cbn [mk_items length] in *; try discriminate; [destruct Hit|].
   destruct Hit as [<-|Hit].
@@ -53,14 +53,14 @@ Theorem rcb_total32 : forall v fuel sched D k tol pts ws p0,
   v_old v = false -> v_safe_mid v = true ->
   (0 < D)%nat -> length ws = length p0 -> length pts = length p0 ->
   Forall (fun p => length p = D) pts ->
-  coords_ok pts -> box_ok32 D pts ws = true ->
+  coords_ok pts -> box_ok32c (v_clamp v) D pts ws = true ->
   Z.of_nat fuel > 2 ^ 33 ->
   exists p, rcb v fuel sched D k tol pts ws p0 = Ok p.
 Proof.
   intros v fuel sched D k tol pts ws p0 Hold Hsafe HD E1 E2 HDl Hok Hbox Hfuel. unfold rcb.
   rewrite E1, E2, !Nat.eqb_refl. cbn [negb].
   destruct pts as [|pt0 pts']; [eexists; reflexivity|]. set (pts := pt0 :: pts') in *.
-  unfold box_ok32 in Hbox. destruct (bbox32 D 0 pts) as [bb|] eqn:Ebb; [|discriminate].
+  unfold box_ok32c in Hbox. destruct (bbox32 (v_clamp v) D 0 pts) as [bb|] eqn:Ebb; [|discriminate].
   rewrite Hold, Hsafe.
   assert (Hlen : length pts = length ws) by lia.
   apply (rcb_core_total spec_float flt fle (f32_mid true) f32_sub f32_add f32_zero f32_inf (tol_test tol)
@@ -68,11 +68,11 @@ Proof.
            f32_fin rank32 (- 2 ^ 32) (2 ^ 32) mid_fin32 rank32_mono rank32_bounds).
   - exact HD.
   - eapply bbox32_length; exact Ebb.
-  - rewrite Forall_forall. intros it Hit. destruct (mk_items_len pts ws 0%N it Hlen Hit) as (p & Hp & Hco).
+  - rewrite Forall_forall. intros it Hit. destruct (mk_items_len (v_clamp v) pts ws 0%N it Hlen Hit) as (p & Hp & Hco).
     split.
     + rewrite Hco, map_length. rewrite Forall_forall in HDl. apply HDl, Hp.
-    + unfold vitem. unfold coords_ok in Hok. rewrite Forall_forall in Hok. apply Hok.
-      rewrite Hco. unfold to32. apply in_map, Hp.
+    + unfold vitem. pose proof (coords_okc (v_clamp v) pts Hok) as Hok'. rewrite Forall_forall in Hok'. apply Hok'.
+      rewrite Hco. unfold to32c. apply in_map, Hp.
   - eapply box_ok_good; exact Hbox.
   - rewrite mk_items_ix by exact Hlen. rewrite E2. reflexivity.
   - unfold pts. destruct ws; [cbn in Hlen; discriminate|]. cbn. discriminate.
@@ -92,6 +92,12 @@ Proof.
   destruct (H c Hc) as (_ & _ & F). unfold f32_valid. destruct (f64_to_f32 c); try discriminate; reflexivity.
 Qed.
 
+Lemma range_finite_valid64 pts : coords_in_f32_range pts -> coords_finite_valid64 pts.
+Proof.
+  unfold coords_in_f32_range, coords_finite_valid64. intros H. rewrite Forall_forall in *. intros p Hp. specialize (H p Hp).
+  rewrite Forall_forall in *. intros c Hc. destruct (H c Hc) as (V & F & _). split; assumption.
+Qed.
+
 Theorem rcb_total32_contract : forall v fuel sched D k tol pts ws p0,
   v_old v = false -> v_safe_mid v = true ->
   (0 < D)%nat -> length ws = length p0 -> length pts = length p0 ->
@@ -104,5 +110,7 @@ Proof.
   - unfold rcb. rewrite E1, E2, !Nat.eqb_refl. cbn [negb]. eexists; reflexivity.
   - rewrite <- Ep in *.
     apply rcb_total32; try assumption; [apply range_coords_ok, Hr|].
-    apply box_ok32_holds; try assumption; [rewrite Ep; discriminate|lia].
+    destruct (v_clamp v).
+    + apply box_ok32c_true_holds; try assumption; [lia|]. apply range_finite_valid64, Hr.
+    + apply box_ok32_holds; try assumption; [rewrite Ep; discriminate|lia].
 Qed.
